@@ -10,7 +10,8 @@ from rules import props
 from concurrent.futures import ThreadPoolExecutor
 PROPS = sorted(props.registry())
 args = [a for a in sys.argv[1:] if not a.startswith("--")]
-st = subprocess.run(["git", "-C", "/repo", "status", "--porcelain", "--untracked-files=no"], capture_output=True, text=True).stdout.strip()
+REPO = os.environ.get("REFAC_REPO", "/repo")   # a scratch worktree at /repo HEAD can be used instead
+st = subprocess.run(["git", "-C", REPO, "status", "--porcelain", "--untracked-files=no"], capture_output=True, text=True).stdout.strip()
 if st:
     sys.exit("refusing: /repo has uncommitted changes")
 mpath = os.path.join(VERIF, "refactors", "matrix.json")
@@ -20,7 +21,7 @@ for d in sorted(glob.glob(os.path.join(VERIF, "refactors", "*"))):
     if not os.path.isdir(d) or (args and name not in args):
         continue
     patch = os.path.join(d, "patch.diff")
-    r = subprocess.run(["git", "-C", "/repo", "apply", patch], capture_output=True, text=True)
+    r = subprocess.run(["git", "-C", REPO, "apply", patch], capture_output=True, text=True)
     if r.returncode != 0:
         matrix[name] = {"error": "patch does not apply: " + r.stderr[-300:]}
         print(name, "DOES NOT APPLY")
@@ -28,7 +29,7 @@ for d in sorted(glob.glob(os.path.join(VERIF, "refactors", "*"))):
     res = {}
     try:
         def one(p):
-            return p, subprocess.run([os.path.join(VERIF, "bin", "check"), p, "--no-evidence"], capture_output=True, text=True)
+            return p, subprocess.run([os.path.join(VERIF, "bin", "check"), p, "--no-evidence", "--repo", REPO], capture_output=True, text=True)
         first = [one(PROPS[0])]
         with ThreadPoolExecutor(8) as ex:
             rest = list(ex.map(one, PROPS[1:]))
@@ -37,7 +38,7 @@ for d in sorted(glob.glob(os.path.join(VERIF, "refactors", "*"))):
             if c.returncode != 0:
                 res[p] = {"exit": c.returncode, "violations": keys[:12], "n": len(keys)}
     finally:
-        subprocess.check_call(["git", "-C", "/repo", "checkout", "--", "."])
+        subprocess.check_call(["git", "-C", REPO, "checkout", "--", "."])
     matrix[name] = {"alarms": res}
     print(name, "clean" if not res else "ALARMS " + json.dumps({p: v["violations"][:3] for p, v in res.items()})[:400])
 os.makedirs(os.path.dirname(mpath), exist_ok=True)
